@@ -254,6 +254,50 @@ def check_scan(P, ctx):
     ctx.floor('C15.position', 8)
 
 
+def check_int_assign_exact(P, ctx):
+    """look / scan deliver an Int through assign(target, $I(value)): Int's assign from an Int source must copy the 64-bit value
+    as it is.  The path taken for an Int source is determined from the instance tables (implements(obj, C) is true exactly for the
+    classes Int declares); on that path the stored value must not pass through a floating-point conversion (values above 2^53 and
+    INT64_MAX do not survive one)."""
+    rule = 'C15.int-assign-exact'
+    fn = P.fn(P.slot('Int', 'Assign', 'assign'))
+    g = P.cfg(fn, lower_ternary=True)
+    ctx.fn(fn)
+    have = set(P.types['Int']['instances'])
+    N = util.Norm(P, fn, expand_locals=True, inline=False)
+    bad = None
+    npaths = 0
+    for path in g.paths(max_visits=1):
+        if util.path_end(path)[0] not in ('ret', 'fall'):
+            continue
+        feasible = True
+        for (n, label) in path:
+            if n['kind'] != 'cond':
+                continue
+            c = N.canon(n['expr'])
+            val = None
+            if c[0] == 'call' and ir.callee_name(c) in ('implements', 'type_implements') and len(c[2]) == 2 and c[2][1][0] == 'global':
+                val = c[2][1][1] in have
+            elif c[0] == 'bin' and c[1] in ('==', '!=') and any(x[0] == 'call' and ir.callee_name(x) == 'type_of' for x in (c[2], c[3])):
+                o = c[3] if c[2][0] == 'call' else c[2]
+                if o[0] == 'global':
+                    val = (o[1] == 'Int') == (c[1] == '==')
+            if val is not None and val != label:
+                feasible = False
+                break
+        if not feasible:
+            continue
+        npaths += 1
+        for ev in util.path_events(path):
+            if ev['t'] == 'write' and util.field_name(ev['lhs']) == 'val' and ev['rhs'] is not None:
+                for x in ir.walk(ev['rhs']):
+                    if (x[0] in ('cast', 'icast') and x[1] in ('double', 'float', 'long double')) or \
+                            (x[0] == 'call' and ir.callee_name(x) in ('c_float', 'Int_C_Float', 'Float_C_Float')):
+                        bad = bad or 'for an Int source the value stored is `%s`: it passes through a floating-point conversion' % ir.fmt(ir.canon(ev['rhs']))[:70]
+    ctx.check(bad is None and npaths > 0, rule, fn['name'], site(fn), 'assigning an Int to an Int copies the 64-bit value without a floating-point detour', [bad] if bad else None)
+    ctx.floor(rule, 1)
+
+
 def run(ctx, load):
     P = load(UNITS, 'default')
     ctx.stats['units'] = set(UNITS)
@@ -262,7 +306,31 @@ def run(ctx, load):
     check_one_char(P, ctx)
     check_specs(P, ctx)
     check_scan(P, ctx)
-    # the writer side of the round trip: show functions use constant formats (shared with C14)
+    check_int_assign_exact(P, ctx)
+    # the writer side of the round trip: print_to_with hands every numeric argument to the sink unchanged (no narrowing), per
+    # specification letter, and counts what was written (shared with C14)
+    from .rules_c14 import check_print
+    before = len(ctx.obs)
+    check_print(P, ctx)
+    for o in ctx.obs[before:]:
+        o['rule'] = 'C15.writer-' + o['rule'].split('.', 1)[1]
+    for k in list(ctx.floors):
+        if k[0].startswith('C14.'):
+            ctx.floors.pop(k)
+    ctx.floor('C15.writer-specifier-table', 8)
+    # the File source reads through vfscanf with the copied specification and the caller's arguments, nothing in between (shared with C20)
+    from .rules_c20 import check_type
+    before = len(ctx.obs)
+    check_type(P, ctx, 'File')
+    keep = [o for o in ctx.obs[before:] if 'format_from' in o['key'] or 'format_to' in o['key']]
+    for o in keep:
+        o['rule'] = 'C15.file-source-and-sink'
+    ctx.obs[before:] = keep
+    for k in list(ctx.floors):
+        if k[0].startswith('C20.'):
+            ctx.floors.pop(k)
+    ctx.floor('C15.file-source-and-sink', 2)
+    # show functions use constant formats (shared with C14)
     from .rules_c14 import check_show_to
     before = len(ctx.obs)
     check_show_to(P, ctx)
